@@ -203,6 +203,30 @@ def check_label(case):
     return 'same', None
 
 
+def check_nan_decorative(variant):
+    """A variable nothing depends on evaluates to NaN in period 1: with and without reduction the solve must end the same way
+    (both refuse; a run that returns must not hold a NaN)."""
+    case = {'kind': 'nan-decorative', 'variant': variant}
+    if variant == 'function':
+        text = 'x = .5*x + 1.\ngrowth = pct(LAG_x, x)\nLAG_x = x(k-1)\nMaxTime = 3'
+    else:
+        text = 'x = .5*x + 1e160\ngrowth = x*1e200 - x*1e200\nMaxTime = 2'
+    outs = []
+    for red in (True, False):
+        s = EquationSolver(text, run_equation_reduction=red)
+        s.AddFunction('pct', lambda a, b: (b / a - 1.) if a != 0 else float('nan'))
+        try:
+            s.SolveEquation()
+        except Exception as e:
+            outs.append('raised')
+        else:
+            bad = [v for v, x in s.TimeSeries.items() if any(isinstance(y, float) and y != y for y in x)]
+            outs.append('returned-with-nan' if bad else 'returned')
+    if outs[0] != outs[1] or 'returned-with-nan' in outs:
+        return core.violation('reduction-changes-outcome:nan-decorative', 'with reduction: %s, without: %s' % (outs[0], outs[1]), dict(case, text=text))
+    return None
+
+
 def classify(case, v, k):
     f = case['features']
     if f['icpos'] in ('a1', 'aL'):
@@ -232,6 +256,14 @@ def run_unit(unit, tier):
             res['evaluations'] += 1
             res['nontrivial'] += 1
             core.bump(res['outcomes'], 'labels:' + outcome)
+            if v:
+                res['violations'].append(v)
+        for variant in ('function', 'overflow'):
+            dig.add(('nan-decorative', variant))
+            v = check_nan_decorative(variant)
+            res['evaluations'] += 1
+            res['nontrivial'] += 1
+            core.bump(res['outcomes'], 'nan-decorative:' + ('ok' if not v else 'violation'))
             if v:
                 res['violations'].append(v)
         res['samples'].append({'label family': label_cases()[0]})
@@ -288,6 +320,9 @@ def run_unit(unit, tier):
 
 
 def replay(case):
+    if case.get('kind') == 'nan-decorative':
+        v = check_nan_decorative(case['variant'])
+        return [v] if v else []
     if case.get('kind') == 'labels':
         o, v = check_label(dict((k, case[k]) for k in ('kind', 'label', 'quote', 'alias_user')))
         return [v] if v else []
